@@ -86,11 +86,17 @@ var atoms = map[string]val{
 	`""`: {k: "S", s: ""}, `"a"`: {k: "S", s: "a"},
 	"true": {k: "B", b: true}, "false": {k: "B", b: false},
 	"vi": {k: "I", i: 5}, "vf": {k: "F", f: 2.5}, "vs": {k: "S", s: "xa"},
+	"pf": {k: "F", f: 1.5}, "pi": {k: "I", i: 4}, // the same kinds behind a pointer (*float64, *int)
 	"tt()": {k: "B", b: true}, "ff()": {k: "B", b: false},
 	"vl": {k: "L"},
 }
 
 var listVals = []int{1, 2, 3}
+
+var (
+	ptrF = 1.5
+	ptrI = 4
+)
 
 // eval is the independent typed evaluator of the TREE (precedence never enters it).
 func eval(e *Expr, st *evalState) (val, int) {
@@ -465,6 +471,7 @@ func (c *Case) Exec(t *eng.T) {
 	var tt, ff int
 	ctx := pongo2.Context{
 		"vi": 5, "vf": 2.5, "vs": "xa", "vl": []int{1, 2, 3},
+		"pf": &ptrF, "pi": &ptrI,
 		"tt": func() bool { tt++; return true },
 		"ff": func() bool { ff++; return false },
 	}
@@ -618,10 +625,13 @@ func run(r *eng.Runner) {
 		styles = quickStyles
 	}
 	at := atomList(false)
-	r.Group("ops<=1", "c07.case", "all expression trees with 0..1 operators over 15 binary + 2 unary operators and 17 atoms, every spelling/spacing style, printed and in if-position")
+	ptrs := []*Expr{{Atom: "pf"}, {Atom: "pi"}} // a *float64 and a *int from the context
+	r.Group("ops<=1", "c07.case", "all expression trees with 0..1 operators over 15 binary + 2 unary operators and 19 atoms (incl. a *float64 and a *int), every spelling/spacing style, printed and in if-position")
 	for n := 0; n <= 1; n++ {
-		trees(n, at, binOps, unOps, func(e *Expr) bool { emit(r, e, all); return !r.Stopped() })
+		trees(n, append(append([]*Expr{}, at...), ptrs...), binOps, unOps, func(e *Expr) bool { emit(r, e, all); return !r.Stopped() })
 	}
+	r.Group("ops=2-pointers", "c07.case", "all trees with exactly 2 operators over the pointer atoms and 2, 0.5, vi")
+	trees(2, append([]*Expr{{Atom: "2"}, {Atom: "0.5"}, {Atom: "vi"}}, ptrs...), binOps, unOps, func(e *Expr) bool { emit(r, e, quickStyles[:1]); return !r.Stopped() })
 	r.Group("ops=2", "c07.case", fmt.Sprintf("all expression trees with exactly 2 operators over the full operator set and 17 atoms, %d spelling/spacing styles", len(styles)))
 	trees(2, at, binOps, unOps, func(e *Expr) bool { emit(r, e, styles); return !r.Stopped() })
 	red := atomList(true)
